@@ -442,7 +442,7 @@ func main() {
 		}
 	} else {
 		id := 0
-		budget := 75
+		budget := 60
 		if *tier == "thorough" {
 			budget = 0
 		}
